@@ -250,6 +250,11 @@ Do(s) ==
       [] s.op = "expect"     -> DoExpect(s.a)
       \* an expectThat that MATCHES: no detail, and force_failure stays as it is (it is never cleared)
       [] s.op = "expectok"   -> UNCHANGED <<stack, registered, details, added, force, attrs, raised, tbNext, hcalls>>
+      \* user code runs a SIBLING of this test (clone_test_with_new_id: a shallow copy of the constructed test, e.g. a
+      \* scenario clone) to completion against a result of its own while this test is in the middle of a stage: every
+      \* run starts from a fresh per-instance state (_reset), so nothing of THIS test - its cleanup stack least of all -
+      \* is touched (C02: each registered cleanup still runs exactly once, LIFO)
+      [] s.op = "sibling"    -> UNCHANGED <<stack, registered, details, added, force, attrs, raised, tbNext, hcalls>>
       [] s.op = "patch"      -> DoPatch(s.a)
       [] s.op = "useFixture" -> DoUseFixtureOk(s.a)
       [] OTHER -> FALSE
@@ -260,6 +265,7 @@ FreeSteps ==
     \cup {St("addDetail", nm.b, nm.n) : nm \in DetailNames}
     \cup {St("expect", m, 0) : m \in Mismatches}
     \cup {St("expectok", None, 0)}
+    \cup {St("sibling", None, 0)}
     \cup {St("patch", a, 0) : a \in Attrs}
     \cup {St("useFixture", f, 0) : f \in {x \in Fixtures : ~FixtureSetUpFails(x)}}
 
